@@ -41,6 +41,31 @@ add("C02", "exploration",
     "vermouth's documented order table, unique atom match, non-edge and pattern vetoes, later definition wins.",
     "§2 C02")
 
-for _p in ["C03", "C04", "C05", "C06", "C07", "C08", "C09", "C10", "C11", "C12", "C13", "C14",
+add("C10", "exploration",
+    "bounded-exhaustive input enumeration with an independent recount of inter-residue atom edges",
+    "For force fields in which all, some or no residue pair has an applicable link, over every labelled connected residue graph "
+    "n<=4 and resname assignment, the set of pairs reported by find_missing_edges / by gen_params' WARNING records must equal "
+    "exactly the residue edges without an atom-level edge in the molecule that was built (recounted from the molecule's own "
+    "edges and resids); the gen_coords connectivity gate is run on 7 molecule shapes.",
+    "Recount uses the atoms' resid attribute; known finding F10 (gate ignores splits inside one residue) is tolerated by predicate.",
+    "§2 C10")
+add("C11", "exploration",
+    "bounded-exhaustive program-level round trip (gen_params -> file -> polyply topology reader) against the captured molecule",
+    "Every force-field variant x labelled residue graph (n<=3 quick / 4 thorough) x resname assignment is run through the real "
+    "gen_params on files; the file must exist for every input the reference accepts, and re-reading it through a generated .top "
+    "must give the same atoms, the same interaction multiset with numeric parameters and ifdef/ifndef guards, and (when the "
+    "reference says no link is missing and every residue edge is a bond/constraint) an isomorphic labelled residue graph.",
+    "Decided for the installed dependency versions only (vermouth 0.15.0, networkx 3.6.1); meta keys the file format cannot "
+    "carry (version/group/edge) are not compared.",
+    "§2 C11")
+add("C14", "exploration",
+    "bounded-exhaustive enumeration of exclusion-distance combinations with a BFS graph-distance recount",
+    "All exclusion-distance combinations {1,2,3}^3 and {0..4}^2 over blocks of 2-4 atoms, four bond-making link sets, all "
+    "labelled connected residue graphs n<=4 (5): the effective exclusion set of the built molecule (molecule-wide distance by BFS "
+    "plus explicit exclusions; for n<=2 read from the written .itp) must equal the per-atom-pair rule of the property.",
+    "Edge graph equals bond graph on the alphabet; reference ref_genparams.expected_exclusions.",
+    "§2 C14")
+
+for _p in ["C03", "C04", "C05", "C06", "C07", "C08", "C09", "C12", "C13",
            "C15", "C17", "C18", "C20"]:
     NOT_YET[_p] = "check under construction in this session (bounded exhaustive exploration applies; see DESIGN.md)"
